@@ -33,6 +33,12 @@ bool sameTreeZ(const cx::FlatNode<T>& a, const cx::FlatNode<T>& b) {
   return true;
 }
 
+#ifdef USINGZ
+// Z callbacks registered with the export layer (plain functions) and the same behaviour for the reference C++ calls
+void zcb64(const Point64&, const Point64&, const Point64&, const Point64&, Point64& pt) { pt.z = 700000 + ((pt.x * 31 + pt.y) & 0xffff); }
+void zcbD(const PointD&, const PointD&, const PointD&, const PointD&, PointD& pt) { pt.z = 900000 + ((int64_t)std::llround(pt.x * 8 + pt.y * 3) & 0xffff); }
+#endif
+
 // paths stored in the case as Paths64 (+ "z" as a parallel Paths64 whose x is the z value) -------------------
 Paths64 withZ(const Case& c, const std::string& k) {
   Paths64 pp = c.P(k);
@@ -191,10 +197,20 @@ Verdict judgeFwd(const Case& c) {
                      " jt=" + std::to_string(jt) + " et=" + std::to_string(et) + " precision=" + std::to_string(prec);
   v.evals = 1;
   auto optionSensitive = [&](bool changed, const char* opt) { if (changed) { ST.count(std::string("option_sensitive_") + opt); v.nontrivial = true; } };
+#ifdef USINGZ
+  // which export-layer Z callbacks are registered for this case: bit 0 the int64 one, bit 1 the double one
+  int zmode = (int)c.I("zmode", 0);
+  SetZCallback64((zmode & 1) ? zcb64 : nullptr);
+  SetZCallbackD((zmode & 2) ? zcbD : nullptr);
+  ST.count("export_zcallbacks_mode_" + std::to_string(zmode));
+#endif
   if (fn == F_Bool64 || fn == F_BoolTree64) {
     int64_t *s = cx::encodePaths(subj, true), *o = cx::encodePaths(open, true), *cl = cx::encodePaths(clip, true), *sol = nullptr, *solo = nullptr;
     auto ref = [&](bool pc2, bool rev2, Paths64& closedOut, Paths64& openOut, cx::FlatNode<int64_t>& tree) {
       Clipper64 k; k.PreserveCollinear(pc2); k.ReverseSolution(rev2);
+#ifdef USINGZ
+      if (zmode & 1) k.SetZCallback(zcb64);
+#endif
       if (!subj.empty()) k.AddSubject(subj); if (!open.empty()) k.AddOpenSubject(open); if (!clip.empty()) k.AddClip(clip);
       if (fn == F_Bool64) k.Execute((ClipType)ct, (FillRule)fr, closedOut, openOut);
       else { PolyTree64 t; k.Execute((ClipType)ct, (FillRule)fr, t, openOut); cx::treeToFlat(t, tree); }
@@ -220,6 +236,9 @@ Verdict judgeFwd(const Case& c) {
     double *s = cx::encodePaths(sd, true), *o = cx::encodePaths(od, true), *cl = cx::encodePaths(cdp, true), *sol = nullptr, *solo = nullptr;
     auto ref = [&](bool pc2, bool rev2, PathsD& closedOut, PathsD& openOut, cx::FlatNode<double>& tree) {
       ClipperD k(prec); k.PreserveCollinear(pc2); k.ReverseSolution(rev2);
+#ifdef USINGZ
+      if (zmode & 2) k.SetZCallback(zcbD);
+#endif
       if (!sd.empty()) k.AddSubject(sd); if (!od.empty()) k.AddOpenSubject(od); if (!cdp.empty()) k.AddClip(cdp);
       if (fn == F_BoolD) k.Execute((ClipType)ct, (FillRule)fr, closedOut, openOut);
       else { PolyTreeD t; k.Execute((ClipType)ct, (FillRule)fr, t, openOut); cx::treeToFlat(t, tree); }
@@ -369,6 +388,7 @@ Case genFwd() {
   c.i["ct"] = G::range(0, 4); c.i["fr"] = G::range(0, 3); c.i["pc"] = G::range(0, 1); c.i["rev"] = G::range(0, 1);
   c.i["jt"] = G::range(0, 3); c.i["et"] = G::range(0, 4); c.i["closed"] = G::range(0, 1);
   c.i["precision"] = G::range(-2, 3);
+  c.i["zmode"] = G::range(0, 3);
   double dd = std::pow(10.0, (double)c.i["precision"]);
   bool dbl = fn == F_InflatePathsD || fn == F_InflatePathD;
   double unit = dbl ? 1.0 / dd : 1.0;
